@@ -291,10 +291,17 @@ func c18Waiters(t *rapid.T) {
 	bl.Write(b)
 	wpos := uint64(pre)
 	nr := rapid.IntRange(1, 5).Draw(t, "readers")
-	event := rapid.SampledFrom([]string{"write", "close", "close"}).Draw(t, "event")
+	event := rapid.SampledFrom([]string{"write", "write-twice", "close", "close"}).Draw(t, "event")
+	if event == "write-twice" {
+		nr = rapid.IntRange(2, 8).Draw(t, "readers2") // a lost wake-up needs readers that wake each other's bookkeeping up
+	}
 	wk := rapid.IntRange(1, 5000).Draw(t, "wk")
 	if uint64(wk) > bk.cap {
 		wk = int(bk.cap) // a larger write overwrites the offset the readers wait at
+	}
+	const rounds = 4 // write-twice: in fact a few writes in a row, each of which must wake the readers that wait again
+	if event == "write-twice" && uint64(rounds*wk) > bk.cap {
+		wk = int(bk.cap / rounds) // all writes together must not overrun a reader that is still at the first offset
 	}
 	type result struct {
 		n   int
@@ -322,6 +329,24 @@ func c18Waiters(t *rapid.T) {
 			started <- struct{}{}
 			var n int
 			var err error
+			if event == "write-twice" {
+				// keep reading (and waiting again at the new write position) until both writes have been seen
+				got, pos := 0, wpos
+				for got < rounds*wk && err == nil {
+					if useReader {
+						n, err = r.Read(buf)
+					} else {
+						n, err = bl.ReadAt(buf, pos)
+					}
+					if n > 0 && checkStream(buf[:n], pos) >= 0 {
+						err = fmt.Errorf("wrong bytes at offset %d", pos)
+					}
+					got += n
+					pos += uint64(n)
+				}
+				results[i] = result{got, err, nil}
+				return
+			}
 			if useReader {
 				n, err = r.Read(buf)
 			} else {
@@ -338,6 +363,14 @@ func c18Waiters(t *rapid.T) {
 		d := make([]byte, wk)
 		fillStream(d, wpos)
 		bl.Write(d)
+	} else if event == "write-twice" {
+		// the readers wake up, read, and wait again at the new write position: the second write must wake them again
+		for j := 0; j < rounds; j++ {
+			d := make([]byte, wk)
+			fillStream(d, wpos+uint64(j*wk))
+			bl.Write(d)
+			time.Sleep(time.Duration(rapid.IntRange(0, 3).Draw(t, "between")) * time.Millisecond)
+		}
 	} else {
 		if rapid.IntRange(0, 2).Draw(t, "slowStoreClose") == 0 {
 			// closing the backing store takes a while (hook): the backlog must count as closed for the woken readers all the same
@@ -368,6 +401,13 @@ func c18Waiters(t *rapid.T) {
 		t.Fatalf("harness: readers did not return but are not parked in the backlog\n%s", dump)
 	}
 	for i, r := range results {
+		if event == "write-twice" {
+			if r.err != nil || r.n != rounds*wk {
+				violation(t, "C18", "waiter-data:second-write:"+bk.name, "reader %d waiting at %d saw %d of %d bytes of %d writes, err %v", i, wpos, r.n, rounds*wk, rounds, r.err)
+				return
+			}
+			continue
+		}
 		if event == "write" {
 			if r.err != nil || r.n < 1 || r.n > wk || checkStream(r.buf[:r.n], wpos) >= 0 {
 				violation(t, "C18", "waiter-data:"+bk.name, "reader %d waiting at %d got %d, %v after a write of %d bytes", i, wpos, r.n, r.err, wk)
